@@ -79,7 +79,14 @@ package html
 // an attribute name keeps upper-case letters only if a template region was entered inside the name: some byte of the
 // name then equals the first byte of the opening delimiter
 //@ pred delimIn(l, lo, hi) := len(l.tmplBegin) > 0 && exists(q, lo, hi, l.r.buf[q] == l.tmplBegin[0])
+// where a quoted attribute value ends: at its own closing quote (or at the end of the input), whatever template regions follow
+// the attribute inside the same token
+//@ pred attrValEnd(l) := l.attrVal != nil && len(l.attrVal) > 0 && (l.attrVal[0] == '"' || l.attrVal[0] == '\'') && (len(l.tmplBegin) == 0 || l.tmplBegin[0] != l.attrVal[0]) ==> (len(l.attrVal) >= 2 && l.attrVal[len(l.attrVal)-1] == l.attrVal[0]) || hOff(l, l.attrVal) + len(l.attrVal) == len(l.r.buf)-1
 //@ func Lexer.shiftAttribute
+//@   ensures[F,C09] @attrval-quoted-end: attrValEnd(l)
+//@   loop 9 candidate[F] attrValEnd(l)
+//@   loop 6 candidate[F] l.r.pos - l.r.start > attrPos
+//@   loop 7 candidate[F] l.r.pos - l.r.start > attrPos
 //@   ensures[F,C09] @key-lower: forall(k, 0, len(l.text), !isUpperC(l.text[k])) || delimIn(l, hOff(l, l.text), hOff(l, l.text) + len(l.text))
 //@   loop * candidate[F] l.hasTmpl ==> delimIn(l, old(l.r.pos), l.r.pos)
 //@   loop * candidate[F] nameHasTmpl ==> delimIn(l, old(l.r.pos), nameEnd + l.r.start)
